@@ -32,7 +32,7 @@ Fails(e) ==
   ELSE "unknown check; "
 
 \* drift (reported, never a verdict): the real option-free stream differs from the reference lexer of the specification
-Drift(e) == /\ Check = "C04" /\ e.kind \in {"generic", "expression", "expression-custom"} /\ e.outcome = "ok" /\ Len(e.input) <= 4200   \* (the reference lexer is recursive)
+Drift(e) == /\ Check = "C04" /\ ~("strings" \in DOMAIN e /\ e.strings) /\ e.kind \in {"generic", "expression", "expression-custom"} /\ e.outcome = "ok" /\ Len(e.input) <= 4200   \* (the reference lexer is recursive)
             /\ [i \in 1 .. Len(e.base) |-> <<e.base[i][1], e.base[i][2]>>] # RefTokens(e.kind, e.input)
 Init == l = 1
 Next ==
